@@ -47,6 +47,8 @@ def bootstrap():
     sys.path.insert(0, REPO)
     sys.path.insert(0, DEPS)
     logging.disable(logging.CRITICAL)
+    # AxolotlManager prints a progress line per prekey when its logger level is NOTSET
+    logging.getLogger("yowsup.axolotl.manager").setLevel(logging.ERROR)
     import yowsup
     got = os.path.realpath(os.path.dirname(os.path.dirname(yowsup.__file__)))
     if got != os.path.realpath(REPO):
